@@ -2,6 +2,7 @@
 From Coq Require Import NArith List Bool.
 Import ListNotations.
 From CXV Require Import Gen.TokTy Parse.Balanced Parse.BalancedThms Parse.Declarator Parse.DeclSpec Parse.DeclThms Parse.DeclPins Parse.PQName Gen.ParserTables.
+From CXV Require Gen.PinsC02.
 Open Scope N_scope.
 
 (* For every legal type tree t (wf: the C++ rules on pointers, references,
@@ -65,6 +66,13 @@ Proof. exact pqname_roundtrip. Qed.
 Theorem declarator_code_is_the_modelled_one : decl_sets_ok = true.
 Proof. exact decl_sets_ok_true. Qed.
 
+(* the functions the hand-written models above mirror (_parse_pqname, _parse_pqname_fundamental and _parse_pqname_name) are, token for
+   token of their syntax trees, the ones the models were written against: the
+   translator recomputes the digests from the live code and produces Gen/PinsC02.v
+   only when they match *)
+Theorem modelled_functions_are_the_pinned_ones : PinsC02.model_code_pinned = true.
+Proof. exact (eq_refl true). Qed.
+
 Print Assumptions qualified_name_decodes.
 Print Assumptions alias_decodes.
 Print Assumptions declarator_code_is_the_modelled_one.
@@ -87,3 +95,4 @@ Example c02_pqname_run :
   /\ parse_pqname (pn2_toks (PFund false [T_unsigned; T_long; T_int]) ++ [mkTk T_NAME 3])
   = DOk (mkPQ [] false [SFund [T_unsigned; T_long; T_int]], [mkTk T_NAME 3]).
 Proof. vm_compute. split; reflexivity. Qed.
+Print Assumptions modelled_functions_are_the_pinned_ones.
